@@ -4,6 +4,7 @@ import FlowRecordProofs.Lemmas.Framing
 import FlowRecordProofs.Lemmas.StreamRoundtrip
 import FlowRecordProofs.Lemmas.Utf8
 import FlowRecordProofs.Lemmas.StreamExample
+import FlowRecordProofs.Lemmas.FieldPack
 import FlowRecord.Model.Stream
 /-!
 C01 — record stream round-trip preserves every record exactly. Property theorems only.
@@ -89,6 +90,37 @@ theorem C01_text_scalars (s : Utf8.PyStr) (hs : ∀ c ∈ s, Utf8.isScalar c) :
 theorem C01_text_counterexample :
     Utf8.encodeSE [0xDCC3, 0xDCA9] = some [0xC3, 0xA9] ∧ Utf8.decodeSE [0xC3, 0xA9] = [0xE9] := by decide
 
+/-- F1, the field-type layer (`FieldType._pack` / `_unpack`): for every kind of field — text, integers, booleans,
+    floats, bytes, digests, paths, commands, addresses, networks, and typed lists of these to any length — and every
+    well-formed value of it (`WFT`: digest text in lower-case hex, path text in pathlib's normal form `norm`, an
+    address whose family agrees with its magnitude, no unset list elements), unpacking what `_pack` produced, as it
+    comes back from the packer layer, gives exactly the value. `norm` (pathlib) is a parameter: the theorem holds
+    for every normal-form function. Together with `C01_stream_roundtrip` this is the typed round trip. -/
+theorem C01_field_unpack_pack (norm : Nat → FieldPack.Str → FieldPack.Str) (k : FieldPack.Kind) (v : FieldPack.TVal)
+    (pv : PV) (hw : FieldPack.WFT norm k v) (hp : FieldPack.packT k v = some pv) :
+    FieldPack.unpackT norm k (rvOf pv) = some v :=
+  FieldPack.unpackT_packT norm k v pv hw hp
+
+/-- hex: `a2b_hex(b2a_hex(b)) = b` for every byte string, and `b2a_hex(a2b_hex(s)) = s` for every LOWER-case hex
+    text — the reason for `digestOK` in `WFT`. -/
+theorem C01_hex_roundtrip (bs : Bytes) (s : FieldPack.Str) (b2 : Bytes) :
+    FieldPack.unhexlify (FieldPack.hexlify bs) = some bs ∧
+    (FieldPack.unhexlify s = some b2 → FieldPack.isLowerHex s = true → FieldPack.hexlify b2 = s) :=
+  ⟨FieldPack.unhexlify_hexlify bs, FieldPack.hexlify_unhexlify_lower s b2⟩
+
+/-- Recorded finding: the lower-case hypothesis cannot be dropped. A digest given as "AB" (upper case) is packed as
+    the byte AB and comes back as the text "ab". -/
+theorem C01_digest_uppercase_counterexample :
+    FieldPack.packT .digest (.digest (some [65, 66]) none none) = some (.seq [.bytes [0xAB], .none, .none]) ∧
+    FieldPack.unpackT (fun _ t => t) .digest (rvOf (.seq [.bytes [0xAB], .none, .none]))
+      = some (.digest (some [97, 98]) none none) := ⟨rfl, rfl⟩
+
+/-- Recorded finding #1 inside the field layer: the IPv6 address ::1 is packed as the integer 1 and comes back as the
+    IPv4 address 0.0.0.1 (the family is inferred from the magnitude). -/
+theorem C01_ipv6_low_counterexample :
+    FieldPack.packT .ip (.ip 6 1) = some (.int 1) ∧
+    FieldPack.unpackT (fun _ t => t) .ip (rvOf (.int 1)) = some (.ip 4 1) := ⟨rfl, rfl⟩
+
 -- non-vacuity: a record with a big integer, text, a UTC timestamp and a nested list satisfies the hypotheses
 namespace C01_nonvacuous
 def d : Desc := { name := [116, 47, 120], fields := [([118], [110])], hash := 7 }
@@ -110,4 +142,9 @@ example : ∀ st' frames, writeAll WState.init [StreamExample.g1, StreamExample.
     (∀ b ∈ frames, b.length < 4294967296) →
     readAll StreamExample.h (streamOf frames) = (rvOfList [StreamExample.g1, StreamExample.o2], .eof) :=
   fun st' frames hw hsz => C01_stream_roundtrip _ _ _ st' frames hw StreamExample.histG hsz
+-- the field-layer hypotheses are met by ordinary values: a lower-case digest, a list of ports, an IPv6 address
+example : FieldPack.WFT (fun _ t => t) .digest (.digest (some [97, 98]) none none) := ⟨⟨by decide, by decide⟩, trivial, trivial⟩
+example : FieldPack.WFT (fun _ t => t) (.list .int) (.list [.int 80, .int 443]) :=
+  ⟨by simp, trivial, by simp, trivial, trivial⟩
+example : FieldPack.WFT (fun _ t => t) .ip (.ip 6 4294967296) := Or.inr ⟨rfl, by decide, by decide⟩
 end C01_nonvacuous
